@@ -490,10 +490,10 @@ class Program:
             return None
         if "::<" in p:
             p = strip_turbofish(p)
-        if p.startswith("crate::"):
-            return self.crate + "::" + p[7:]
         if p == "crate":
             return self.crate
+        if "crate::" in p:
+            p = _CRATE_RE.sub(self.crate + "::", p)
         return p
 
     # --- lookup ----------------------------------------------------------------------------
@@ -568,6 +568,9 @@ class Program:
         return self._callgraph
 
 
+_CRATE_RE = re.compile(r"(?<![A-Za-z0-9_])crate::")
+
+
 class AnchorError(Exception):
     pass
 
@@ -578,7 +581,7 @@ def strip_turbofish(p):
     i = 0
     n = len(p)
     while i < n:
-        if p.startswith("::<", i):
+        if p.startswith("::<", i) and not p.startswith("::<impl ", i):
             depth = 0
             j = i + 2
             while j < n:
